@@ -18,6 +18,7 @@ from vf import models, report
 from vf.sym import Engine, Inconclusive, SR, z3bool, z3real
 
 LEVEL = 'model_checking'
+PERTURBED_LEVELS = (1, 3, 6)   # segment levels at which the end points carry the rounding perturbation
 
 
 def load():
@@ -223,8 +224,28 @@ def bdr_run(eng, IM, name, piece_idx, level, fail, concrete=None):
         q0, q1 = q, q + Fraction(1, 2**level)
         orient = eng.choice(2)
         form = eng.choice(3)
-    a = (p0[0] + d[0] * ln * q0, p0[1] + d[1] * ln * q0)
-    b = (p0[0] + d[0] * ln * q1, p0[1] + d[1] * ln * q1)
+    # callers obtain the end points from the boundary parametrisation in double arithmetic, i.e. only to within
+    # rounding: the running coordinate of each end point carries an arbitrary perturbation |delta| <= 1e-15 * unit
+    # (the coordinate that is constant along the side is exact, as it is for gamma of a straight side)
+    if concrete:
+        da, db = concrete.get('da', 0.0), concrete.get('db', 0.0)
+        if concrete['k'] == 0 or level not in PERTURBED_LEVELS:
+            da = 0.0
+        if concrete['k'] == 2**level - 1 or level not in PERTURBED_LEVELS:
+            db = 0.0
+    else:
+        da, db = eng.real('da'), eng.real('db')
+        for dl in (da, db):
+            eng.assume(dl >= -Fraction(1, 10**15) * Fraction(u))
+            eng.assume(dl <= Fraction(1, 10**15) * Fraction(u))
+        # corners of the unit pieces are produced exactly by the shipped parametrisations (their constructors assert
+        # bit-exact end points), so an end point that is such a corner carries no perturbation
+        if q0 == 0 or level not in PERTURBED_LEVELS:
+            da = SR.const(0)
+        if q1 == 1 or level not in PERTURBED_LEVELS:
+            db = SR.const(0)
+    a = (p0[0] + d[0] * (ln * q0 + da), p0[1] + d[1] * (ln * q0 + da))
+    b = (p0[0] + d[0] * (ln * q1 + db), p0[1] + d[1] * (ln * q1 + db))
     if orient:
         a, b = b, a
 
@@ -346,7 +367,8 @@ def worker(case):
                 else:
                     kq = Fraction(vals.get('q', '0')) * 2**level
                     ch = list(pr.choices) + [0, 0]
-                    rp = dict(kind='bdr', name=name, piece=piece_idx, level=level, k=int(kq), orient=ch[0], form=ch[1])
+                    rp = dict(kind='bdr', name=name, piece=piece_idx, level=level, k=int(kq), orient=ch[0], form=ch[1],
+                              da=float(Fraction(vals.get('da', '0'))), db=float(Fraction(vals.get('db', '0'))))
                 res['violations'].append(dict(signature='%s:%s' % (kind, sig), what='%s [%s]' % (what, rp), replay=rp,
                                               reproduced=replay(rp)))
             cands.clear()
@@ -386,7 +408,8 @@ def _replay(rp, IM, found, fail):
             else:
                 # plain call of the shipped factory with floats, the way initial_potential.py calls it
                 bdr_run(eng, IM, rp['name'], rp['piece'], rp['level'], fail,
-                        concrete=dict(k=rp['k'], orient=rp['orient'], form=rp['form']))
+                        concrete=dict(k=rp['k'], orient=rp['orient'], form=rp['form'], da=rp.get('da', 0.0),
+                                      db=rp.get('db', 0.0)))
         except Exception as e:
             found.append('exception:' + type(e).__name__)
     return bool(found)
@@ -416,7 +439,8 @@ def run(out):
     for c, r in zip(cases, results):
         report.merge_worker(out, r, part='%s %s' % (c[0], c[1]))
     out.bounds = dict(history_depth=depth, shapes=list(SHAPES), unit='symbolic s > 0',
-                      boundary_level_max=lmax, k='symbolic integer in [0, 2^l)', orientations=2, input_forms=3)
+                      boundary_level_max=lmax, k='symbolic integer in [0, 2^l)', orientations=2, input_forms=3,
+                      end_point_perturbation='|delta| <= 1e-15 * unit on the running coordinate of each non-corner end point, at segment levels %r' % (PERTURBED_LEVELS, ))
     out.outside = ['refinement sequences longer than the stated depth', 'segment levels above the stated maximum '
                    '(the property goes to 10)', 'floating-point rounding of segment end points (reals)']
     out.assumptions = ['math.isclose modelled as |a-b| <= 1e-9*max(|a|,|b|), ndarray arguments first go through '
